@@ -6,7 +6,7 @@ CHECKS = {
              text='Decides three structural clauses that the statement of C11 names: a re-registration replaces rather than duplicates (a subscription is created only after '
                   'the look-up by session and token came out NULL and an entry for the same request was deleted by the token of that entry); at least every sixth notification is Confirmable (NON only '
                   'with non_cnt below COAP_OBS_MAX_NON, NON_ALWAYS or the final 4.04, and the counter reset / incremented to match the type before transmission); a Reset that '
-                  'matches a queued notification cancels the observer; an observer skipped under back-pressure is marked dirty; a Reset only cancels an observer of the session it came from. Losing a session removes every observer of that session, not the first. Freshness and ordering of Observe values, eventual notification of the last state and the other '
+                  'matches a queued notification cancels the observer; an observer skipped under back-pressure is marked dirty; a Reset only cancels an observer of the session it came from. Losing a session removes every observer of that session, not the first. A failed Confirmable notification is counted before the count is judged; a subscription is found only for the session that asks. Freshness and ordering of Observe values, eventual notification of the last state and the other '
                   'deregistration routes are temporal properties over histories and are not decided.',
              design='6 C11'),
  'C07': dict(technique='path-sensitive typestate over handle_response(): duplicate-arm / handler / emission-count / verdict agreement (R-RESP)',
@@ -20,37 +20,37 @@ CHECKS = {
              text='Decides necessary structural conditions of memory safety on the receive surface: wire-derived indices/copy sizes into fixed-size objects proven in '
                   'range (bounds taken from the decoder\'s own per-option table), CBOR-declared sizes compared with what is left, wire-derived shift counts bounded, '
                   'declared lengths capped with the session closed on excess, rejection of every malformed-input condition before dispatch, no use of a PDU buffer '
-                  'pointer after a possible reallocation, every memcmp/strncmp over a length-delimited string bounded by that string\'s own length, and a persistent count that bounds a fixed array only incremented behind one common capacity guard, a function that was given a buffer\'s capacity compares against it before a variable-size copy, two-pass string builders count and store the same bytes, a length is passed with the bytes it measures, header fields of a received PDU index fixed tables only in range, CBOR reader reads covered by real remaining-length tests, no use of a local copy of an owned pointer field after a call that may free it. A separator is written by segment count as the measuring pass counted it, a maybe-NULL call result never reaches a dereferencing libc routine untested, and the token-extension bytes are read only where the datagram has them. Absence of all memory errors / UB for all inputs and histories, termination and continued service are '
+                  'pointer after a possible reallocation, every memcmp/strncmp over a length-delimited string bounded by that string\'s own length, and a persistent count that bounds a fixed array only incremented behind one common capacity guard, a function that was given a buffer\'s capacity compares against it before a variable-size copy, two-pass string builders count and store the same bytes, a length is passed with the bytes it measures, header fields of a received PDU index fixed tables only in range, CBOR reader reads covered by real remaining-length tests, no use of a local copy of an owned pointer field after a call that may free it. A separator is written by segment count as the measuring pass counted it, a maybe-NULL call result never reaches a dereferencing libc routine untested, and the token-extension bytes are read only where the datagram has them. A record field whose object was released is assigned again (or its holder disposed of) on every path. Absence of all memory errors / UB for all inputs and histories, termination and continued service are '
                   'not decided; persistent reader-state indices are declined.',
              design='6 C02'),
  'C14': dict(technique='case-label dataflow of option numbers into the outer/inner PDU roles against the RFC 8613 Figure 5 table, tested-result gating of the decrypt call (R-OSC-SPLIT), role typing of byte-string flows between the COSE object and the request/response association (R-OSC-ROLE), reaching definitions of the steering flags and read-before-overwrite of comparison results in the context look-up',
              text='Decides three clauses of C14: the outer/inner option split (no class E option reaches the unprotected PDU; unnamed options go inner), that no '
-                  'message is accepted unless cose_encrypt0_decrypt returned > 0, and that the association carrying the request\'s AAD/nonce/partial IV to the response is filled, refreshed and read back from fields of the same role; plus two supporting clauses: a steering flag of the protect/unprotect functions is reached at its test by an assignment other than its initialiser, in the security-context look-up no comparison result is overwritten before it was read (a Recipient-ID mismatch cannot be forgotten), the option decoder examines all eight bits of the flag byte, and the CBOR head writer produces the RFC 8949 form at every boundary. While the received (outer) PDU is walked every class E option is discarded before options are copied inward. Byte equality with an independent RFC 8613 implementation and the round trip '
+                  'message is accepted unless cose_encrypt0_decrypt returned > 0, and that the association carrying the request\'s AAD/nonce/partial IV to the response is filled, refreshed and read back from fields of the same role; plus two supporting clauses: a steering flag of the protect/unprotect functions is reached at its test by an assignment other than its initialiser, in the security-context look-up no comparison result is overwritten before it was read (a Recipient-ID mismatch cannot be forgotten), the option decoder examines all eight bits of the flag byte, and the CBOR head writer produces the RFC 8949 form at every boundary. While the received (outer) PDU is walked every class E option is discarded before options are copied inward. A response is protected with the context kept in the exchange\'s association, not with the session\'s latest one. Byte equality with an independent RFC 8613 implementation and the round trip '
                   'are not decided.',
              design='6 C14'),
  'C19': dict(technique='who-may-call plus path-fact gating at the call sites, single-writer rule on the established flag under the GNUTLS_E_SUCCESS case label (R-ROUTE), verdict typestate on the application\'s identity/hint validation callbacks (R-PSK-VERDICT), delivered-or-NACKed-before-delete typestate on delay-queue nodes (R-DELAYQ-NACK)',
              text='Decides the routing/gating clauses of C19: cleartext processing only for UDP or inside an established TLS record read, established only on '
-                  'handshake success, session-connected and record I/O only afterwards, transmission only in state ESTABLISHED; in the PSK callbacks the application\'s verdict on an identity/hint is never replaced and a NULL verdict never reaches a success return, an installed identity / hint callback is consulted before every success return, the back end acts on a TLS event only after resetting the event field in the same call; a message taken off a delay queue is deleted only after its PDU went to the transport or, if Confirmable, to coap_handle_nack (or the queue was already drained by a reporting loop). Credential acceptance (inside '
+                  'handshake success, session-connected and record I/O only afterwards, transmission only in state ESTABLISHED; in the PSK callbacks the application\'s verdict on an identity/hint is never replaced and a NULL verdict never reaches a success return, an installed identity / hint callback is consulted before every success return, the back end acts on a TLS event only after resetting the event field in the same call; a message taken off a delay queue is deleted only after its PDU went to the transport or, if Confirmable, to coap_handle_nack (or the queue was already drained by a reporting loop). The loop that sends what was queued during the handshake counts a Confirmable only on the arm that sends it. Credential acceptance (inside '
                   'GnuTLS), handshake schedules and the exactly-once count of NACKs over histories are not decided.',
              design='6 C19'),
  'C20': dict(technique='path-sensitive guard check of every store through the output cursor and of the space handed to the callee (R-OUT-BOUND), compare-within-length relation analysis in the query-filter matcher (R-CMP-BOUND), flag/field agreement (R-ATTR-FLAGS), More-bit equivalence by enumeration (R-BLK-MORE)',
              text='Decides two clauses of C20. Nothing is written outside the window the caller supplied: every cursor store holds cursor < end for the current '
                   'cursor value and coap_print_link receives end - cursor. The filter compares a pattern with a value/token/path only within, and decides an exact match against, the length of the string actually compared. An attribute string is copied or kept according to the release flag of that string, not of the other one. Every More bit computed for a body being sent (the block-wise GET of the listing included) equals `length - offset > bytes in this block`. Window/total/truncation exactness and the rest of the filter semantics are not decided.',
              design='6 C20'),
- 'C09': dict(technique='call-exactly-once / hand-over / store-and-link typestate on the release callback (R-RELEASE-ONCE), compare-within-length relation analysis on the transfer keys (R-CMP-BOUND), More-bit equivalence by enumeration and read-after-resync of the block size (R-BLK-MORE)',
+ 'C09': dict(technique='call-exactly-once / hand-over / store-and-link typestate on the release callback (R-RELEASE-ONCE), compare-within-length relation analysis on the transfer keys (R-CMP-BOUND), More-bit equivalence by enumeration and read-after-resync of the block size (R-BLK-MORE), stepped-before-read typestate on label counters (R-FRESH-LABEL)',
              text='Decides three clauses of C09: a reassembled request body is handed to the application from a block with the More bit set only when the final block is known to have been seen; a response is handed up after a transfer record expired only with the application\'s token back in it; transfers are told apart by their full keys (token, Request-Tag, query, path compared only with the compared length known within/equal to both operands\' lengths), and the sender\'s release callback runs exactly once on every path of every function that takes a release_func and of '
-                  'the lg_xmit deleter. Two genuine defects (request == NULL in coap_add_data_large_response_lkd; premature delivery of a Q-Block1 body without Size1) are known findings. Every More bit computed for a body being sent equals `length - offset > bytes in this block` (enumerated), and the block-size decision is never taken on the requested size once the function has selected its own. Body integrity, tiling, '
+                  'the lg_xmit deleter. Two genuine defects (request == NULL in coap_add_data_large_response_lkd; premature delivery of a Q-Block1 body without Size1) are known findings. Every More bit computed for a body being sent equals `length - offset > bytes in this block` (enumerated), and the block-size decision is never taken on the requested size once the function has selected its own. The ETag counter is stepped before a new body is labelled with it. Body integrity, tiling, '
                   'at-most-once delivery, token hiding and size fitting quantify over runtime lengths and schedules and are not decided.',
              design='6 C09'),
  'C10': dict(technique='linear ownership of the response object (R-OWN-PDU) and emission-count typestate over coap_dispatch/handle_request (R-REPLY-ONCE), flag/class agreement of the suppression decision table (R-SUPPRESS-TAB), ACK-only-under-a-type-test clause',
              text='Decides the clause "at most one direct reply per request datagram": every reply object is created once and sent or deleted exactly once on '
-                  'every path, and no path passes two emission points except Empty ACK followed by the response. Also decides the internal agreement of the suppression table in no_response(): each per-resource multicast flag is paired with the response class its public name states on the arm its polarity demands, the No-Response bitmap is indexed with class-1; a queued Non-confirmable reply is flagged for a single transmission; an ACK is only made on paths that tested the answered message to be Confirmable; a token is copied into a reply with the length of the bytes it is copied from; the unknown-resource handler is only chosen after .well-known/core was ruled out. A helper that replies on behalf of the dispatcher reports "stop" after replying. The reply-code table, handler selection '
+                  'every path, and no path passes two emission points except Empty ACK followed by the response. Also decides the internal agreement of the suppression table in no_response(): each per-resource multicast flag is paired with the response class its public name states on the arm its polarity demands, the No-Response bitmap is indexed with class-1; a queued Non-confirmable reply is flagged for a single transmission; an ACK is only made on paths that tested the answered message to be Confirmable; a token is copied into a reply with the length of the bytes it is copied from; the unknown-resource handler is only chosen after .well-known/core was ruled out. A helper that replies on behalf of the dispatcher reports "stop" after replying. A scan of the options that is restarted resets what it carried from the first pass. The reply-code table, handler selection '
                   'and when suppression applies are not decided.',
              design='6 C10'),
  'C06': dict(technique='send-queue node typestate {owned, in send queue, in delay queue, deleted} via the linear-ownership engine (R-OWN-NODE), gate/count/NACK-once typestate in coap_retransmit (R-RETRANS)',
              text='Decides on every path that a queue node has one owner and one disposal (never leaked, never deleted while linked in a delay queue, never used '
                   'after deletion), that retransmission is gated by retransmit_cnt < max_retransmit with exactly one increment, that a given-up Confirmable is '
-                  'NACKed exactly once, that only Confirmables or flagged single-shot nodes enter the retransmit queue, and that a transmitted-and-counted Confirmable reaches the retransmit queue or is un-counted, whoever arms the I/O timer records the deadline it armed it for, and no test of a message id treats id 0 as failure. Necessary for "ends in one outcome and is never sent again"; timing, byte-identical retransmission and behaviour '
+                  'NACKed exactly once, that only Confirmables or flagged single-shot nodes enter the retransmit queue, and that a transmitted-and-counted Confirmable reaches the retransmit queue or is un-counted, whoever arms the I/O timer records the deadline it armed it for, and no test of a message id treats id 0 as failure. The base time of the send queue is only set with the queue known empty. Necessary for "ends in one outcome and is never sent again"; timing, byte-identical retransmission and behaviour '
                   'under loss patterns are not decided.',
              design='6 C06'),
  'C08': dict(technique='who-may-write census plus path-sensitive gate/in-hand typestate on the in-flight counter (R-CNT-CON)',
@@ -68,44 +68,44 @@ CHECKS = {
  'C16': dict(technique='cursor/remaining-length availability analysis of look-ahead reads (R-LEN-READ), constant evaluation of the character-class predicates over all 256 bytes (R-URI-CLASS), per-byte agreement of measuring and filling loops (R-SIZE-FILL), NULL-check typestate (R-ALLOC-NULL)',
              text='Decides that the URI scanners never read behind the length-delimited input (every cursor[k] read is covered by a proven lower bound of the '
                   'remaining length, decode_segment only after a tested check_segment), that the unescaped sets used by the path/query reconstruction exclude the '
-                  'separator and the escape character (necessary for injectivity of the lookup key), that the measuring and the filling pass of the reconstruction count and store the same number of bytes for every byte value, that a port number cannot leave its digit loop out of range without being rejected, that percent-escapes are recognised in both hex cases, and that optlist allocations are checked. A `..` segment can only remove path segments this conversion added, never an option the chain held before. Agreement with '
+                  'separator and the escape character (necessary for injectivity of the lookup key), that the measuring and the filling pass of the reconstruction count and store the same number of bytes for every byte value, that a port number cannot leave its digit loop out of range without being rejected, that percent-escapes are recognised in both hex cases, and that optlist allocations are checked. A `..` segment can only remove path segments this conversion added, never an option the chain held before. The converter to options and the scheme table agree on every scheme\'s default port. Agreement with '
                   'RFC 3986 on all strings and dot-segment resolution are not decided.',
              design='6 C16'),
  'C05': dict(technique='transfer/advance pairing typestate on progress counters (R-STREAM-ADV), declared-length cap and close must-pass-through rule (R-STREAM-CAP)',
              text='Decides for the TCP and WebSocket stream readers that every n bytes stored at buffer+counter are accounted by advancing that counter by the same '
                   'n (or a reset) on every path, that peer-declared lengths are compared with a maximum before they size an allocation/copy/read with the '
-                  'exceeding arm closing the session, that a parse cursor advanced into the receive buffer is re-derived after every refill, that a full handshake line buffer is rejected, and that the receive limit, once our own maximum is set, is computed without any session field the peer can set, that a position is never set to the size of the piece just stored, and that the needed length of a variable header is final when it is compared with what has arrived. The header is parsed only under a condition that mentions every variable of the length it is parsed with. Necessary for segmentation independence and for '
+                  'exceeding arm closing the session, that a parse cursor advanced into the receive buffer is re-derived after every refill, that a full handshake line buffer is rejected, and that the receive limit, once our own maximum is set, is computed without any session field the peer can set, that a position is never set to the size of the piece just stored, and that the needed length of a variable header is final when it is compared with what has arrived. The header is parsed only under a condition that mentions every variable of the length it is parsed with. A value learnt in the header phase of an earlier call is read from the session record, not from a local that has its initialiser again. Necessary for segmentation independence and for '
                   '"over-long closes the session"; equality of delivered message sequences over all segmentations is not decided.',
              design='6 C05'),
  'C01': dict(technique='sibling/table agreement by constant-partition extraction and interval-guided arm-offset check (R-CODEC-TAB), narrowing-cast interval check (R-WIDTH), stale-pointer and size/payload pairing typestate (R-FIXUP)',
              text='Decides, on the current source, that every encoder and decoder of option delta/length, TCP length and token length uses the RFC 7252/8323/8974 '
                   'thresholds, nibbles and offsets (and therefore each other\'s), that the decoder\'s option-number bound as folded in its unit equals the '
                   'builder\'s, that every buffer-measuring expression uses the on-wire token size, that every comparison against the extended-token bias macros cuts the token lengths exactly at 13 / 269, that the largest accepted token is the RFC 8974 maximum as folded into the library, that a payload marker is never written without payload behind it, that no stored length passes a truncating explicit cast, and that the builder keeps buffer pointers and size/payload in step. '
-                  'After an option is removed the highest option number is taken from the options that remain; a resize re-bases the payload pointer against the old buffer; the stream frame size accounts for the token-extension bytes. These are necessary conditions of the round trip; equality of parse(serialise(m)) with m is not decided.',
+                  'After an option is removed the highest option number is taken from the options that remain; a resize re-bases the payload pointer against the old buffer; the stream frame size accounts for the token-extension bytes. The capacity check the editors rely on says yes only with the capacity known; the option-number bound separates exactly the numbers above 65535 in whatever form it is written; no shift discards all bits of a narrowed value. These are necessary conditions of the round trip; equality of parse(serialise(m)) with m is not decided.',
              design='6 C01'),
  'C03': dict(technique='interval analysis with wrap-guard/range-guard discharge on the decoder\'s option-number arithmetic (R-WIDTH), reject-arm must-return-0 typestate over a frozen condition table and parse-before-dispatch gating (R-PARSE-GATE), table agreement (R-CODEC-TAB)',
              text='Decides that the decoder cannot silently wrap an option number, that each malformed-input condition of the frozen table (reserved nibbles, '
                   'TKL 15, token longer than message, payload marker without payload, non-empty Empty, option-number overflow, runt datagram, truncated option) is '
-                  'still tested and only leads to a zero return, that the parser\'s pure output fields are assigned on every accepting path, that the accept flag collected over the options of a message only ever goes down, and that the protocol layer is entered only after successful parser calls. An option length reaches the per-option limits with its full width. Agreement with an '
+                  'still tested and only leads to a zero return, that the parser\'s pure output fields are assigned on every accepting path, that the accept flag collected over the options of a message only ever goes down, and that the protocol layer is entered only after successful parser calls. An option length reaches the per-option limits with its full width. The option-number bound is decided by enumeration, also in its overflow-safe subtraction form. Agreement with an '
                   'independent decoder on all inputs and the per-option length table are not decided.',
              design='6 C03'),
  'C04': dict(technique='stale-pointer typestate across may-reallocate calls (computed closure) and used_size/data/memmove pairing (R-FIXUP), narrowing-cast interval check (R-WIDTH)',
              text='Decides for the in-place editors that payload pointer and used size are always moved together by the memmove distance, that no pointer into '
-                  'the buffer survives a call that may reallocate it, that lengths are not truncated on store, and that token-length thresholds are applied to the right one of the two token lengths, and that an editor advances the size only after the encoder wrote the bytes. After a removal the highest option number is recomputed from the options that remain. Necessary for "edits change only what they name"; '
+                  'the buffer survives a call that may reallocate it, that lengths are not truncated on store, and that token-length thresholds are applied to the right one of the two token lengths, and that an editor advances the size only after the encoder wrote the bytes. After a removal the highest option number is recomputed from the options that remain. The capacity check says yes only with the capacity known; the high byte of a re-encoded delta is not shifted out by a misplaced cast. Necessary for "edits change only what they name"; '
                   'equality with the list model after arbitrary edit sequences is not decided.',
              design='6 C04'),
- 'C12': dict(technique='reference-count pairing typestate (R-REF-TMP), computed holder types with release-before-free (R-REF-HOLD), event-before-free must-precede rule (R-SESS-EVT), linear ownership of local heap objects (R-OWN-LOCAL), drain-before-gated-free ordering in the context destructor (R-TEARDOWN), hashed-before-free typestate for sessions made in a function (R-SESS-HASHED), zero-before-fields dominance rule on byte-hashed key records (R-SESS-KEY)',
+ 'C12': dict(technique='reference-count pairing typestate (R-REF-TMP), computed holder types with release-before-free (R-REF-HOLD), event-before-free must-precede rule (R-SESS-EVT), linear ownership of local heap objects (R-OWN-LOCAL), drain-before-gated-free ordering in the context destructor (R-TEARDOWN), hashed-before-free typestate for sessions made in a function (R-SESS-HASHED), zero-before-fields dominance rule on byte-hashed key records (R-SESS-KEY), key-atom rule on computed per-session finders (R-FINDER-KEY)',
              text='Every path of every library function: temporary session references are paired; every object type that stores a session reference '
                   '(computed from the assignments) releases it before it is freed or cleared, also through freeing helpers; a server session is freed only '
                   'after SERVER_SESSION_DEL was raised for it; strings/binaries/optlists/cache keys created in a function are released, stored, returned or '
-                  'handed on on every path; the context destructor drains every collection of reference holders before the endpoint destructor that only frees unreferenced sessions; a holder whose reference was released does not keep the old pointer; a function that takes over an object it is handed agrees with itself, over all its failure returns, on who owns the object afterwards; scratch buffers are released on every path; a session found for a datagram has its idle clock refreshed; a session made in a function is freed or released there only after it was added to a session table (the free unlinks it, and unlinking a never-added element drops the whole table). The record that files and finds sessions by its bytes is zeroed as a whole before its fields are set. Necessary for "live while referenced; everything released; one NEW/DEL event". Peer-to-session bijection and '
+                  'handed on on every path; the context destructor drains every collection of reference holders before the endpoint destructor that only frees unreferenced sessions; a holder whose reference was released does not keep the old pointer; a function that takes over an object it is handed agrees with itself, over all its failure returns, on who owns the object afterwards; scratch buffers are released on every path; a session found for a datagram has its idle clock refreshed; a session made in a function is freed or released there only after it was added to a session table (the free unlinks it, and unlinking a never-added element drops the whole table). The record that files and finds sessions by its bytes is zeroed as a whole before its fields are set. Per-session finders return only what belongs to the asking session. Necessary for "live while referenced; everything released; one NEW/DEL event". Peer-to-session bijection and '
                   'reclamation timing are not decided.',
              design='6 C12'),
  'C18': dict(technique='NULL-check typestate for computed may-fail constructors (R-ALLOC-NULL) + linear ownership of PDUs with computed consumer summaries (R-OWN-PDU), alias-window typestate after shallow struct copies against computed destructor frees (R-SHALLOW-ALIAS), fresh-holder field ownership (R-HOLDER-LEAK), linear ownership of local strings/binaries/optlists/cache keys (R-OWN-LOCAL), dead-after-destructor typestate with computed destructors (R-USE-AFTER-DESTROY), reallocation commit rule (R-REALLOC-COMMIT)',
              text='Library-wide, every path: the result of every (computed) may-fail constructor is NULL-tested before any dereference or hand-over to a '
                   'dereferencing callee; every PDU created or received through a consuming parameter is released/handed on/stored exactly once, never used '
                   'after release; the frozen consumer contracts (coap_send*, coap_session_delay_pdu, coap_send_q_block*) are checked against their own bodies; after a shallow struct copy no destructor that frees a still-aliased owned field runs before that field got its own buffer; a freshly allocated record is not freed raw while its fields hold objects created on that path; nothing is read through a local after the call that destroys what it points to; the result of a reallocation is not stored into the old pointer and the owner\'s fields are not changed ahead of a reallocation that can fail; a function that takes over an object agrees over its failure returns on who owns it; a field handed to a may-delete-and-return helper is assigned again afterwards; scratch buffers are released on every path; no library function ends the process (six HASH_ADD sites whose out-of-memory arm is exit(-1) are known findings). '
-                  'Necessary for surviving allocation failure without crash or leak; "the next operation succeeds" is not decided.',
+                  'A record field whose object was released is assigned again (or its holder disposed of) on every path. Necessary for surviving allocation failure without crash or leak; "the next operation succeeds" is not decided.',
              design='6 C18'),
  'C13': dict(technique='lock typestate {U,L,F} + in_callback counter over all paths and calling contexts (ESP-style property simulation), capability/mechanism configuration rule, owner typestate on the lock object\'s bookkeeping fields inside the lock primitives (R-LOCK-OWNER)',
              text='Path- and context-exhaustive lock-discipline analysis with thread safety forced on and asserts visible: balance of lock/unlock and '
@@ -117,7 +117,7 @@ CHECKS = {
  'C17': dict(technique='FILE* typestate over the CFG (R-FILE-MODE) + tmp-file/rename must-pass-through rule (R-PERSIST)',
              text='Path-exhaustive structural rule over every function that opens a file: decides the necessary clauses '
                   '"stream only used as its mode allows", "only the .tmp copy is written", "rename only after a tested flush", "the temporary stream is opened truncating", "a restored subscription is re-written under the key the restoring call returned", "a record that is only copied is written back with the fields that were read", "the real file is replaced by rename() alone, never removed first". '
-                  '"the raw request recorded for a dynamically created resource spans header and body". Does not decide restart behaviour or counter values.',
+                  '"the raw request recorded for a dynamically created resource spans header and body". "resources are re-created before anything is restored onto them". Does not decide restart behaviour or counter values.',
              design='6 C17'),
 }
 NA = {
